@@ -52,7 +52,11 @@ def nfc(s):
 
 SIGNIFICANT = list(":/?#[]@!$&'()*+,;=") + ['%', '%41', '%zz', '%2F', '%', ' ', '+', '\t', '\n', '\x00', '\x7f', '\x1f', '"', '<', '>', '\\', '^', '`',
                                             '{', '|', '}', '~', '.', '..', '-', '_', 'a', 'Z', '0', '\xe9', 'e\u0301', '\u212b', '\u20ac', '\U0001f600',
-                                            '\u0301', '\xa0', '\u200b', '\ufffd', '%C3%A9', '%FF', 'a b', 'a+b', 'a&b=c', 'k=v', ';', 'x;y', '=', '&']
+                                            '\u0301', '\xa0', '\u200b', '\ufffd', '%C3%A9', '%FF', 'a b', 'a+b', 'a&b=c', 'k=v', ';', 'x;y', '=', '&',
+                                            # code points that codecs / text layers treat specially: BOM, non-characters, line/paragraph
+                                            # separators, bidi controls, the ends of the BMP and of Unicode, the surrogate neighbours
+                                            '\ufeff', '\ufeffk', '\ufffe', '\uffff', '\u2028', '\u2029', '\x85', '\u202e', '\ud7ff', '\ue000',
+                                            '\U0010ffff', '\U000e0001', '%EF%BB%BF']
 _piece = st.one_of(st.sampled_from(SIGNIFICANT), st.sampled_from(SIGNIFICANT), st.sampled_from(['a', 'b', 'ab', 'x1']),
                    st.text(max_size=3))
 _comp = st.lists(_piece, min_size=0, max_size=4).map(''.join)
@@ -412,7 +416,10 @@ def run_c(case):
 _salt = st.sampled_from(['http://', 'https://', 'www.', 'ftp://', '//', '://', '[', ']', '[::1]', '[::', 'xn--', 'xn--a', 'xn--a.com', ':80', ':x', ':',
                          '@', '\x00', ' ', '\n', '%', '%zz', '#', '?', '/', '.', '..', 'a..b', 'A' * 64, '\xe9', '\u0130', '\u2028', 'mailto:',
                          'a' * 70 + '.com', 'http://[', 'http://]', 'http://[::1', 'http://a:b@c:d', '(', ')', '&amp;', '<', '>', '\\', '\ud800'.encode('utf-16', 'surrogatepass').decode('utf-16', 'replace'),
-                         'example.com', 'www.example.com', 'http://example.com/a(b)c', '1.2.3.4', '256.1.1.1', '\u3002', '\uff0e'])
+                         'example.com', 'www.example.com', 'http://example.com/a(b)c', '1.2.3.4', '256.1.1.1', '\u3002', '\uff0e',
+                         # scale classes: ports beyond int()'s 4300-digit conversion limit, non-ASCII decimal digits, long labels/paths
+                         ':' + '7' * 4300, ':' + '7' * 4301, 'http://h.example:' + '9' * 5000 + '/', ':\u0661\u0662', ':\u00b2', ':\uff11',
+                         'a' * 5000, 'http://' + 'a.' * 3000 + 'com', '/' * 3000, '%41' * 2000, '\ufeff', '\ufeffhttp://'])
 
 
 def strat_d(tier):
